@@ -136,7 +136,7 @@ var (
 	reLoop      = regexp.MustCompile(`^loop\s+(\d+|assigning\(\w+\))\s+invariant\s*`)
 	reAtCall    = regexp.MustCompile(`^(at|after)\s+call\s+(\S+)\s+#(\d+|\*|\?)\s+(assert|ghost|assume)\s*`)
 	reAtReturn  = regexp.MustCompile(`^at\s+return\s+#?(\d+|\*)\s+(?:inscope\((\w+)\)\s+)?(assert|ghost)\s*`)
-	reAtAssign  = regexp.MustCompile(`^at\s+assign\s+(\w+)\s+#(\d+|\*)\s+(assert|ghost|assume)\s*`)
+	reAtAssign  = regexp.MustCompile(`^at\s+assign\s+(\w+)\s+#(\d+|\*|\?)\s+(assert|ghost|assume)\s*`)
 	reAtEntry   = regexp.MustCompile(`^at\s+entry\s+(ghost|assume)\s*`)
 	reAtLoop    = regexp.MustCompile(`^at\s+loop\s+(\d+|assigning\(\w+\))\s+(body|exit|init)\s+(assert|ghost|assume)\s*`)
 )
@@ -472,7 +472,11 @@ func ParseContractFile(path, pkgPath string) (*PkgContracts, error) {
 				}
 				c.AnchorKind = "assign"
 				c.AnchorName = m[1]
-				if m[2] != "*" {
+				switch m[2] {
+				case "*":
+				case "?":
+					c.Optional = true
+				default:
 					c.AnchorOrd, _ = strconv.Atoi(m[2])
 				}
 				cur.Anchored = append(cur.Anchored, c)
